@@ -23,6 +23,28 @@ use std::io::{self, Read, Write};
 use std::sync::{Arc, Condvar, Mutex};
 use std::time::{Duration, Instant};
 
+/// run one scenario on its own thread; a scenario that does not finish (a call on the real code that never returns) is a failure
+pub fn with_watchdog<F: FnOnce() + Send + 'static>(what: String, secs: u64, f: F) {
+    let (tx, rx) = std::sync::mpsc::channel();
+    let h = std::thread::spawn(move || {
+        f();
+        let _ = tx.send(());
+    });
+    match rx.recv_timeout(Duration::from_secs(secs)) {
+        Ok(()) => {
+            let _ = h.join();
+        }
+        Err(std::sync::mpsc::RecvTimeoutError::Disconnected) => {
+            // the scenario panicked: propagate its message
+            match h.join() {
+                Err(e) => std::panic::resume_unwind(e),
+                Ok(()) => {}
+            }
+        }
+        Err(std::sync::mpsc::RecvTimeoutError::Timeout) => panic!("{}: the scenario did not finish within {} s (some call on the real code never returns)", what, secs),
+    }
+}
+
 pub fn method_bytes<M: crate::serialize::IntoAmqpClass>(channel: u16, m: M) -> Vec<u8> {
     let mut buf = OutputBuffer::empty();
     buf.push_method(channel, m);
